@@ -1,3 +1,14 @@
--- This module serves as the root of the `QuinnModel` library.
--- Import modules here that should be built as part of the library.
-import QuinnModel.Basic
+-- root of the library: every property module (lake build QuinnModel checks everything)
+import QuinnModel.Props.C01
+import QuinnModel.Props.C03
+import QuinnModel.Props.C04
+import QuinnModel.Props.C07
+import QuinnModel.Props.C08
+import QuinnModel.Props.C10
+import QuinnModel.Props.C10_ack
+import QuinnModel.Props.C10_frames
+import QuinnModel.Props.C10_header
+import QuinnModel.Props.C10_tparams
+import QuinnModel.Props.C12
+import QuinnModel.Props.C14
+import QuinnModel.Props.C20
